@@ -413,6 +413,7 @@ func (st *State) applyContract(fr *Frame, in ssa.CallInstruction, ct *Contract, 
 		if u.c.Options["callee-preconditions"] == "assumed" {
 			// a variant unit (F~x) re-reads a function for one more property; the preconditions of the calls in F are
 			// proof obligations of F's primary unit and are taken from there
+			st.e.note(u.name, "assumption", fmt.Sprintf("precondition %s.%s of a call in the body is assumed here: it is a proof obligation of the primary unit of the same function (option callee-preconditions assumed)", ct.Func, label))
 			st.assume(g)
 			continue
 		}
